@@ -57,7 +57,9 @@ pub struct Case {
 type Key = (u8, u8, u8, u16);
 
 fn key(d: &Dgram) -> Key {
-    (d.src, d.dst, d.proto, d.id)
+    // two host numbers that `address_of` maps to one address are one host
+    let canon = |k: u8| if k % 8 == 7 { k } else { k % 8 };
+    (canon(d.src), canon(d.dst), d.proto, d.id)
 }
 
 fn byte_at(k: Key, off: u32) -> u8 {
@@ -66,6 +68,21 @@ fn byte_at(k: Key, off: u32) -> u8 {
     fnv_u64(&mut h, k.3 as u64);
     fnv_u64(&mut h, off as u64);
     (h >> 24) as u8
+}
+
+/// Source and destination come from one table, so that pairs occur in both directions and
+/// addresses differ in any one octet (or only in octet order).
+fn address_of(k: u8) -> [u8; 4] {
+    match k % 8 {
+        0 => [10, 0, 0, 1],
+        1 => [10, 0, 1, 1],
+        2 => [10, 0, 0, 2],
+        3 => [11, 0, 0, 1],
+        4 => [1, 0, 0, 10],
+        5 => [10, 1, 0, 1],
+        6 => [10, 0, 1, 0],
+        _ => [10, 0, 0, k],
+    }
 }
 
 fn header_of(d: &Dgram) -> Ipv4Header {
@@ -79,8 +96,8 @@ fn header_of(d: &Dgram) -> Ipv4Header {
         time_to_live: d.ttl,
         protocol: d.proto,
         checksum: 0,
-        source: Ipv4Address::new([10, 0, 0, d.src]),
-        destination: Ipv4Address::new([10, 0, 1, d.dst]),
+        source: Ipv4Address::new(address_of(d.src)),
+        destination: Ipv4Address::new(address_of(d.dst)),
     }
 }
 
@@ -552,10 +569,26 @@ pub fn generate(seed: u64, opts: &RunOpts) -> Case {
             d.proto = base.proto;
             d.id = base.id;
             match rng.below(if avoid_reuse { 4 } else { 6 }) {
-                0 => d.src = base.src.wrapping_add(1 + i as u8),
-                1 => d.dst = base.dst.wrapping_add(1 + i as u8),
-                2 => d.proto = if base.proto == 17 { 6 } else { 17 + i as u8 },
-                3 => d.id = base.id.wrapping_add(1 + i as u16),
+                0 => d.src = base.src.wrapping_add(1 + rng.below(7) as u8),
+                1 => {
+                    if rng.chance(1, 3) && base.src % 8 != base.dst % 8 {
+                        // the same two hosts, the other direction
+                        d.src = base.dst;
+                        d.dst = base.src;
+                    } else {
+                        d.dst = base.dst.wrapping_add(1 + rng.below(7) as u8);
+                    }
+                }
+                2 => d.proto = if base.proto == 17 { 6 } else { *rng.pick(&[1u8, 17, 18, 145, 255]) },
+                3 => {
+                    d.id = match rng.below(5) {
+                        0 => base.id.wrapping_add(256),
+                        1 => base.id ^ 0x8000,
+                        2 => base.id.swap_bytes(),
+                        3 => base.id.wrapping_add(1),
+                        _ => base.id.wrapping_add(1 + i as u16),
+                    }
+                }
                 _ => {
                     // same buffer id: the same datagram sent again (its id
                     // re-used after completion, or a retransmission)
